@@ -480,12 +480,16 @@ def _range_subset(i, o):
 def converter_lattice(repo, col, in_types=None):
     rule = "E-DTYPE"
     outer = repo.func("data_types", "get_chunk_dtype_transformer")
-    inner = repo.func("data_types",
-                      "get_chunk_dtype_transformer.chunk_transformer")
+    from .core import returned_closure
+    inner = returned_closure(outer)
     params = [p for p in outer.params]
-    if params[:2] != ["input_dtype", "output_dtype"]:
-        raise AnalysisError("anchor vanished: (input_dtype, output_dtype) "
-                            "parameters of %s" % outer.key)
+    if inner is None or len(params) < 2 or not inner.params:
+        col.add(rule, outer, "converter closure", True,
+                "get_chunk_dtype_transformer does not return a nested "
+                "function of (chunk, ...): the converter's body is not "
+                "interpreted", undecided=True)
+        return 0
+    p_in, p_out = params[:2]
     arr_param = inner.params[0]
     fails = {}
     undec = []
@@ -496,7 +500,7 @@ def converter_lattice(repo, col, in_types=None):
         n_pairs += 1
         for warn in (False, True):
             interp = Interp(outer.module)
-            env = {"input_dtype": DT(i), "output_dtype": DT(o), "warn": warn}
+            env = {p_in: DT(i), p_out: DT(o), "warn": warn}
             for p in params[2:]:
                 env.setdefault(p, warn)
             try:
@@ -611,14 +615,29 @@ def _why(what, construct, who):
 def averaging_accumulator(repo, col):
     rule = "E-DTYPE.accumulator"
     fn = repo.func("downscaling", "AveragingDownscaler.downscale")
+    from .core import walk_local as _wl, call_name as _cn
+    arr_param = [p for p in fn.params if p != "self"][0]
+    # the accumulator type: first argument of the converter builder, else the
+    # local bound to np.promote_types(...)
+    wname = None
+    for c in _wl(fn.node):
+        if isinstance(c, ast.Call) and (_cn(c) or "").endswith(
+                "get_chunk_dtype_transformer") and c.args and \
+                isinstance(c.args[0], ast.Name):
+            wname = c.args[0].id
     assign = None
     for st in stmts_of(fn.node):
-        if isinstance(st, ast.Assign) and isinstance(st.targets[0], ast.Name) \
-                and st.targets[0].id == "work_dtype":
-            assign = st
+        if isinstance(st, ast.Assign) and isinstance(st.targets[0], ast.Name):
+            if (wname and st.targets[0].id == wname) or (
+                    not wname and isinstance(st.value, ast.Call) and
+                    (_cn(st.value) or "").endswith("promote_types")):
+                assign = st
     if assign is None:
-        raise AnalysisError("anchor vanished: work_dtype in %s" % fn.key)
-    arr_param = [p for p in fn.params if p != "self"][0]
+        col.add(rule, fn, "accumulator type", True, "the accumulator type of "
+                "the averaging downscaler is not bound to a local in a "
+                "recognised way", undecided=True)
+        return
+    wname = assign.targets[0].id
     for d in OUT_TYPES:
         interp = Interp(fn.module)
         try:
@@ -650,9 +669,17 @@ def averaging_accumulator(repo, col):
     rets = [s for s in stmts_of(fn.node) if isinstance(s, ast.Return)]
     builds = [c for c in walk_local(fn.node) if isinstance(c, ast.Call)
               and (call_name(c) or "").endswith("get_chunk_dtype_transformer")]
+    def _is_input_dtype(e):
+        if norm(e) == "%s.dtype" % arr_param:
+            return True
+        if isinstance(e, ast.Name):
+            ds = [d for d in defs.get(e.id, []) if d.value is not None]
+            return bool(ds) and all(norm(d.value) == "%s.dtype" % arr_param
+                                    for d in ds)
+        return False
     ok_build = bool(builds) and all(
-        len(c.args) >= 2 and norm(c.args[0]) == "work_dtype"
-        and norm(c.args[1]) == "dtype" for c in builds)
+        len(c.args) >= 2 and norm(c.args[0]) == wname
+        and _is_input_dtype(c.args[1]) for c in builds)
     col.add(rule, fn, "converter = get_chunk_dtype_transformer(work_dtype, "
             "dtype)", ok_build, "" if ok_build else
             "the converter back to the input type is not built from the "
@@ -661,6 +688,10 @@ def averaging_accumulator(repo, col):
     ok, und, why = bool(rets), False, ""
     for r in rets:
         v = r.value
+        if isinstance(v, ast.Call) and isinstance(v.func, ast.Call) and \
+                (call_name(v.func) or "").endswith(
+                    "get_chunk_dtype_transformer"):
+            continue        # converter built and applied in one expression
         if not (isinstance(v, ast.Call) and isinstance(v.func, ast.Name)):
             ok = False
             why = "a return path does not go through the converter (%s)" \
@@ -676,8 +707,10 @@ def averaging_accumulator(repo, col):
             keys += [c.args[0] for c in walk_local(x) if isinstance(c, ast.Call)
                      and isinstance(c.func, ast.Attribute)
                      and c.func.attr in ("get", "setdefault") and c.args]
-            if keys and all("dtype" not in (names_in(k) - {"work_dtype"})
-                            for k in keys):
+            def _has_input_dtype(k):
+                return any(_is_input_dtype(n) for n in walk_local(k)
+                           if isinstance(n, (ast.Name, ast.Attribute)))
+            if keys and not any(_has_input_dtype(k) for k in keys):
                 ok = False
                 why = "the converter is cached under a key (%s) that does " \
                     "not include the chunk's dtype: a later chunk of another " \
